@@ -39,7 +39,10 @@ def group_env(g, ngroups):
     switches set explicitly to their default values (they are read at import time, so only a fresh interpreter sees
     them); behaviour must not depend on whether they are set"""
     if ngroups > 1 and g == ngroups - 1:
-        return {"EPSILON": "0.0001", "NUMERIC_PRECISION": "4"}
+        # the printing-precision switch at a legal non-default value, the tolerance switch unset: the comparison tolerance
+        # and every value the library stores must not depend on how many digits are printed (the dyadic constants of the
+        # generated domains print exactly with 3 decimals)
+        return {"NUMERIC_PRECISION": "3"}
     if ngroups > 3 and g == 1:
         # the documented tolerance switch at a legal non-default value: exact comparisons (the reference interpreter
         # reads the same variable)
@@ -259,7 +262,7 @@ def cmd_check(a):
                          "stub": list(prop.REAL_VS_STUB.get("stub", [])) + [
                              "directory listings under the simulated root (glob / listdir / scandir: permuted)",
                              "file clock (in half of the runs every file written under the simulated root keeps one mtime)",
-                             "interpreter environment per worker group (plain, EPSILON=0, python -O, explicit defaults)",
+                             "interpreter environment per worker group (plain, EPSILON=0, python -O, NUMERIC_PRECISION=3)",
                              "application logging configuration (disabled / DEBUG with a NullHandler)"]},
         "repo_head": repo_head(), "repo_dirty": repo_dirty(),
         "known_findings_hit": [l for l in lines if l.startswith("KNOWN-FINDING")],
